@@ -208,16 +208,29 @@ theorem split_join {r sepR : Rep} {s sep : Bytes} (h : Models r s) (hsep : Model
   rw [AslModel.Str.split, this] at hm
   simpa using hm
 
-/-- `split(sep, out)` / `split(out)` when the caller's output array itself holds the string being split (`out[k].split(sep, out)`,
-    `out[k].split(out)`) or the separator (`s.split(out[k], out)`): in bounds, and `out` ends up holding exactly the pieces of the
-    standard split of the OLD `out[k]` — whatever else the array held (repaired in 42a2190; before, the element was read after
-    `out.clear()` had destroyed it: `AslProofs.Str.splitElem_unrepaired_counterexample`) -/
-theorem split_into_own_array {out : List Rep} {ts : List Bytes} (h : AllModels out ts) (k : Nat) (hk : k < out.length) :
-    (∀ sep, sep ≠ [] → ∃ l t, ts[k]? = some t ∧ splitElem out k sep = some l ∧ AllModels l (splitAbs sep [] t)) ∧
-    (∃ l t, ts[k]? = some t ∧ splitWsElem out k = some l ∧ AllModels l (tokensAbs t)) ∧
-    (∀ r s, Models r s → (∀ t, ts[k]? = some t → t ≠ []) →
-      ∃ l t, ts[k]? = some t ∧ splitSepElem r out k = some l ∧ AllModels l (splitAbs t [] s)) :=
-  ⟨fun sep hs => splitElem_spec h k hk sep hs, splitWsElem_spec h k hk, fun _ _ hm hne => splitSepElem_spec hm h k hk hne⟩
+/-- `split(sep, out)` / `split(out)` into the caller's array, the array modelled as cells that `out.clear()` kills
+    (`AslModel.Str.Rep.Cells`; reading a dead cell fails), the operands given by reference — a String elsewhere or element
+    `k` of `out` itself (`out[k].split(sep, out)`, `s.split(out[k], out)`, `out[k].split(out)`).  With the repaired statement
+    order (42a2190) every combination succeeds, in bounds, and `out` ends up holding exactly the pieces of the standard
+    split of the old operands, whatever else the array held. -/
+theorem split_into_own_array {out : Cells} {self sep : Ref} {s sp : Bytes} (hs : RefModels out self s) :
+    (RefModels out sep sp → sp ≠ [] →
+      ∃ l, splitInto out self sep = some (liveCells l) ∧ AllModels l (splitAbs sp [] s)) ∧
+    (∃ l, splitWsInto out self = some (liveCells l) ∧ AllModels l (tokensAbs s)) :=
+  ⟨fun hp hne => splitInto_spec hs hp hne, splitWsInto_spec hs⟩
+
+/-- the statement order before the repair (`out.clear()` first), transcribed on the same cells: it fails whenever the
+    string being split or the separator is an element of `out` (the operand is read through a dead cell — the
+    use-after-free), and was correct when both operands live elsewhere.  So the model distinguishes the two orders
+    exactly on the aliased calls.  (What this does NOT establish: that the C++ code performs its reads in the order
+    transcribed — that tie is K under ASan with the ops `splitself` / `splitsepself` / `splitwsself`.) -/
+theorem split_into_own_array_old_order (out : Cells) :
+    (∀ k other, splitIntoOld out (.cell k) other = none ∧ splitIntoOld out other (.cell k) = none ∧
+      splitWsIntoOld out (.cell k) = none) ∧
+    (∀ r rp s sp, Models r s → Models rp sp → sp ≠ [] →
+      (∃ l, splitIntoOld out (.ext r) (.ext rp) = some (liveCells l) ∧ AllModels l (splitAbs sp [] s)) ∧
+      (∃ l, splitWsIntoOld out (.ext r) = some (liveCells l) ∧ AllModels l (tokensAbs s))) :=
+  ⟨fun k other => splitIntoOld_fails out k other, fun _ _ _ _ hm hpm hne => splitIntoOld_ext out hm hpm hne⟩
 
 /-- `join` is interleaving with the separator -/
 theorem join_spec {sepR : Rep} {sep : Bytes} (hsep : Models sepR sep) {ps : List Rep} {parts : List Bytes}
@@ -399,6 +412,9 @@ example : splitAbs [44] [] [97, 44, 44, 98] = [[97], [], [98]] := by decide +ker
 example : replaceAbs [97, 97] [98] [97, 97, 97, 97, 97] = [98, 98, 97] := by decide +kernel
 example : substrIdx 11 1 2147483647 = some (1, 11) ∧ substrIdxUnrepaired 11 1 2147483647 = none :=
   ⟨substr_unrepaired_counterexample.2, substr_unrepaired_counterexample.1⟩
+example : ∃ r, RefModels [none, some r] (.cell 1) [104, 105] := by
+  obtain ⟨r, _, hm⟩ := ofBytes_spec [104, 105] (by intro c hc; simp at hc; rcases hc with rfl | rfl <;> decide)
+  exact ⟨r, r, rfl, hm⟩
 example : tokensAbs [32, 97, 98, 9, 9, 99, 10] = [[97, 98], [99]] := by decide +kernel
 example : Mut.Valid (.append [97]) := by intro c hc; simp at hc; subst hc; decide
 example : myltoa (-9223372036854775808) = [45, 57, 50, 50, 51, 51, 55, 50, 48, 51, 54, 56, 53, 52, 55, 55, 53, 56, 48, 56] := by
